@@ -144,11 +144,16 @@ def h_load_defs(parser, buf, mac, args, delim, pos):
     if not ok:
         return utils.latex_error('could not read file ' + repr(file),
                                         pos, parser.latex, parser.parms)
+    extracted = len(parser.extracted) if hasattr(parser, 'extracted') else 0
     try:
         toks = parser.parser_work(latex)
     except RecursionError:
         utils.fatal('Problem while executing "' + mac.name + '{' + file
                     + '}".\n' + '*** Is the file included recursively?')
+    if hasattr(parser, 'extracted'):
+        # text of the file is dropped: also detached pieces like footnotes
+        # (their positions do not refer to the main text)
+        del parser.extracted[extracted:]
     return utils.filter_set_toks(toks, pos, defs.LanguageToken)
 
 #   read definitions for a LaTeX package
